@@ -173,8 +173,11 @@ def run_case(case):
                 env_extra['LDFLAGS'] = '-L' + os.path.join(src, 'extlib3')
                 comp['target'].append("'-DUSE_EXT2'")
             elif s['o'] == 'envdef':
+                # (two-word spelling in two variables: the words of the
+                # environment's flags are taken as they are, repeated or not)
                 env_extra['CFLAGS' if lang == 'c' else 'CXXFLAGS'] = \
-                    '-DENVDEF=1'
+                    '-D ENVDEF=1'
+                env_extra['CPPFLAGS'] = '-D ENVCPP=1'
             elif s['o'] == 'pch':
                 pch = ", pch='pre.h'"
             elif s['where'] in comp:
